@@ -195,7 +195,17 @@ def routes(rng, n, widths=None, depth=3):
         k = i % 8
         try:
             if k == 0:
-                yield "annotated", build_annotated(d, rng), d
+                b = build_annotated(d, rng, p=rng.choice([0.25, 0.6]))
+                yield "annotated", b, d
+                # substitution below annotated nodes: by something over other variables and of another depth
+                leaves = [x for x in b.leaf_asts() if x.symbolic and isinstance(x, claripy.ast.BV)]
+                if leaves:
+                    old = rng.choice(leaves)
+                    w = old.length
+                    new = rng.choice([claripy.BVS("ra", w, explicit_name=True) * claripy.BVS("rb", w, explicit_name=True) + 3, claripy.BVS("ra", w, explicit_name=True), claripy.BVV(rng.getrandbits(w), w), ~claripy.BVS("rb", w, explicit_name=True)])
+                    c = claripy.replace(b, old, new)
+                    yield "annotated-replace", c, None
+                    yield "annotated-replace-again", claripy.replace(c, claripy.BVS("ra", w, explicit_name=True), claripy.BVV(2, w)), None
             elif k == 1:
                 leaves = [x for x in a.leaf_asts() if x.symbolic]
                 if leaves:
